@@ -93,7 +93,7 @@ register(
         "C09",
         P.gen_C09,
         P.run_C09,
-        8000,
+        12000,
         250000,
         "exploration",
         "seeded histories, then (a) quiescent token chains for every webentity x page sizes x crawled-only and (b) a pager whose successive calls are separated by seeded page-inserting requests; non-trivial when a chain needs >= 3 calls or writes happened between calls; distinct = distinct event digests",
